@@ -78,6 +78,19 @@ class World(object):
                 out.extend(self.consts(c))
         return out
 
+    def bound_literals(self, f):
+        """the filter whose literal the generated function is bound to (scenario filters carry `x == <fid>`):
+        looked for in the function's default arguments; 0 when it cannot be seen (then it is not judged)"""
+        try:
+            found = set()
+            for d in (getattr(f, '__defaults__', None) or ()):
+                for x in (d if isinstance(d, (tuple, list)) else (d,)):
+                    if isinstance(x, (int, float)) and not isinstance(x, bool) and x == int(x) and int(x) in self.tags.values():
+                        found.add(int(x))
+            return found.pop() if len(found) == 1 else 0
+        except Exception:
+            return 0
+
     def snapshot(self, base):
         """abstract projection of the module state: (generated name -> filter), size, hits, misses"""
         ns = []
@@ -92,9 +105,9 @@ class World(object):
             if code is not None:
                 ids = [self.tags[c] for c in self.consts(code) if c in self.tags]
                 fid = ids[0] if len(ids) == 1 else 0
-            ns.append([int(m.group(1)), fid])
+            ns.append([int(m.group(1)), fid, self.bound_literals(f)])
         b = base[0] or 0
-        ns = sorted([n - b, f] for n, f in ns)
+        ns = sorted([n - b, f, c] for n, f, c in ns)
         ci = self.gf._filter_function.cache_info()
         return {'ns': ns, 'size': ci.currsize, 'hits': ci.hits, 'misses': ci.misses}
 
@@ -268,7 +281,7 @@ def sequential_histories(rep, work, hs, tier, rng):
     kk = ci.maxsize if ci.maxsize is not None else 1000000
     for nm_, extra in (('seq', ''), ('seq_diag', 'INVARIANT Progress\n')):
         with open(work.path('Trace_FilterCache_%s.cfg' % nm_), 'w') as fh:
-            fh.write('SPECIFICATION TSpec\nCONSTANTS\n  Threads = {1}\n  Filters = {1}\n  K = %d\n  Atomic = TRUE\n'
+            fh.write('SPECIFICATION TSpec\nCONSTANTS\n  Threads = {1}\n  Filters = {1}\n  K = %d\n  Atomic = TRUE\n  PrivateConsts = TRUE\n'
                      '  MaxCalls = 99\n  Budget = 8\nVIEW TView\nINVARIANT NoCrossTalk\nINVARIANT GetNeverFails\n'
                      'INVARIANT NamesUnique\nINVARIANT LruBound\nINVARIANT Accounting\nCHECK_DEADLOCK FALSE\n%s' % (kk, extra))
     acc, inv, r = judge(rep, work, traces, work.path('Trace_FilterCache_seq.cfg'), 'sequential', workers=len(traces))
@@ -310,6 +323,11 @@ def run(tier):
         rep.extra['non_atomic_allocation_counterexample'] = r2.invariant_violated
         if not r2.invariant_violated:
             raise MachineryError('the non-atomic model no longer shows the race: the model lost its teeth')
+        r3 = run_tlc(work, 'FilterCache.tla', 'MC_FilterCache_sharedconsts.cfg')
+        rep.tlc('model-check literals through a shared module global (expected counterexample)', r3)
+        rep.extra['shared_constants_slot_counterexample'] = r3.invariant_violated
+        if not r3.invariant_violated:
+            raise MachineryError('the shared-constants model no longer shows the race: the model lost its teeth')
         # (C) concurrent executions, K = 2 (module-global shadow of the lru wrapper)
         w = World(hs, 2)
         try:
